@@ -435,6 +435,9 @@ CreateAs(u, k) ==
 \* @z := noop() : a user-defined function whose body runs off its end (no RETURN) changes nothing - in particular it is
 \* not a transaction boundary; @z := ins_t(k) : the function's body inserts (k, 1) into t, like the statement itself
 CallNoop == out' = Ok /\ UNCHANGED <<disk, cache, dirty, created, temp, ended, envn, enc>>
+\* statements that execute statements - EXECUTE '..', SOURCE `file`, EXECUTE of a prepared statement - are no transaction
+\* boundary either: whatever they run belongs to the transaction they are in (here: an assignment to a variable)
+NestExec == CallNoop
 CallIns(t, k) == Insert1(t, k, 1)
 
 \* CREATE TABLE NewFile (id, v)
@@ -526,6 +529,7 @@ Do(a) ==
        [] a.act = "insertpath" -> InsertPath(a.t, a.k)
        [] a.act = "createas" -> CreateAs(a.u, a.k)
        [] a.act = "callnoop" -> CallNoop
+       [] a.act \in {"nestexec", "nestsource", "nestprep"} -> NestExec
        [] a.act = "callins"  -> CallIns(a.t, a.k)
        [] a.act = "create"   -> Create
        [] a.act = "commit"   -> Commit
@@ -559,7 +563,7 @@ Actions ==
   \cup {A("insertpath", t, k, x) : t \in AllFiles, k \in Keys, x \in 1..4}
   \cup {A3("createas", u, k) : u \in Tables \ {NewFile}, k \in 0..3}
   \cup {[act |-> x, t |-> t, u |-> u, k |-> k, x |-> 0] : x \in {"updatetwo", "deletetwo"}, t \in AllFiles, u \in AllFiles, k \in Keys \cup {7}}
-  \cup {A("callnoop", "", 0, 0)}
+  \cup {A(x, "", 0, 0) : x \in {"callnoop", "nestexec", "nestsource", "nestprep"}}
   \cup {A("callins", t, k, 0) : t \in Tables \ {NewFile}, k \in Keys}
   \cup {A(x, "", 0, 0) : x \in {"create", "commit", "rollback"}}
   \cup {A("env", f, 0, 0) : f \in Files}
